@@ -123,6 +123,9 @@ func c05Product(c mcfg, st c05State) Scenario {
 	if c.ErrKind != "" {
 		name += " auth-errors=" + c.ErrKind
 	}
+	if c.Iounit != 0 {
+		name += fmt.Sprintf(" implementation-iounit=%d", c.Iounit)
+	}
 	return Scenario{Name: name, Run: func(rc *RunCtx) *Result {
 		res := &Result{Exhaustive: true}
 		sigSeen := map[string]bool{}
@@ -388,6 +391,15 @@ func c05Scenarios(tier string) []Scenario {
 		c := mcfg{Dotu: i%2 == 0, Auth: true, Msize: 256, ErrKind: ek}
 		for _, st := range c05States(c) {
 			if st.name == "absent" || st.name == "auth-fid" || st.name == "dir-unopened" {
+				out = append(out, c05Product(c, st))
+			}
+		}
+	}
+	// implementations that advertise an iounit of their own (their block size: larger than
+	// what the connection can carry, or smaller than it): the rules about counts are the connection's
+	for i, c := range []mcfg{{Msize: 256, Iounit: 65536}, {Msize: 8216, Iounit: 65536, Dotu: true}, {Msize: 256, Iounit: 16}, {Msize: 64, Iounit: 41, Dotu: true}} {
+		for _, st := range c05States(c) {
+			if strings.Contains(st.name, "open-mode") || strings.HasPrefix(st.name, "created-") || (i == 0 && st.name == "file-unopened") {
 				out = append(out, c05Product(c, st))
 			}
 		}
